@@ -24,7 +24,7 @@ core == <<par, es, nsteps>>
 NW == par.NW
 AG == 1..par.A
 ObsId(i, ep, t, a) == (((i - 1) * 8 + ep) * 8 + t) * 4 + (a - 1)
-Absent == [present |-> FALSE, obs |-> 0, rew |-> 0, term |-> TRUE, trunc |-> FALSE, tick |-> 0]
+Absent == [present |-> FALSE, obs |-> 0, rew |-> 0, term |-> TRUE, trunc |-> FALSE, tick |-> 0, aux |-> 0 - 1, aux2 |-> 0 - 1]
 
 InitWith(p) ==
   /\ par = p
@@ -39,7 +39,7 @@ Reset ==
   /\ es' = [i \in 1..NW |-> ResetOne(i, es[i])]
   /\ out' = [i \in 1..NW |-> [a \in AG |->
                [present |-> TRUE, obs |-> ObsId(i, es[i].ep + 1, 0, a), rew |-> 0, term |-> FALSE, trunc |-> FALSE,
-                tick |-> es[i].tick]]]
+                tick |-> es[i].tick, aux |-> 0 - 1, aux2 |-> 0 - 1]]]
   /\ UNCHANGED <<par, nsteps>> /\ act' = [op |-> "reset"]
 
 \* one step of environment i on its own
@@ -56,8 +56,11 @@ OutOne(i, s, acts) == [a \in AG |->
   IF a \in s.live
     THEN [present |-> TRUE,
           obs   |-> IF Finished(i, s) THEN ObsId(i, s.ep + 1, 0, a) ELSE ObsId(i, s.ep, s.t + 1, a),
-          rew   |-> 10 * acts[a] + s.t + 1,
-          term  |-> TermOf(i, s, a), trunc |-> TruncOf(i, s, a), tick |-> s.tick + 1]
+          rew   |-> 20 * acts[a] + 2 * (s.t + 1) + 1,        \* in half units: the environments' rewards are 10 a + t + 1/2
+          term  |-> TermOf(i, s, a), trunc |-> TruncOf(i, s, a), tick |-> s.tick + 1,
+          \* info keys that only some sub-environments report at some steps (-1 = not reported)
+          aux   |-> IF ((i - 1) + s.tick + 1) % 2 = 0 THEN s.tick + 1 ELSE 0 - 1,
+          aux2  |-> IF i = 1 /\ (s.tick + 1) % 2 = 0 THEN s.tick + 1 ELSE 0 - 1]
     ELSE [Absent EXCEPT !.obs = IF Finished(i, s) THEN ObsId(i, s.ep + 1, 0, a) ELSE 0,
                         !.present = FALSE]]
 
